@@ -32,6 +32,7 @@ N_CASES = {'quick': 480, 'thorough': 100000}
 BUDGET_S = {'quick': 220, 'thorough': 3600}
 BAND = 1e-4
 K1 = 'K1-mdanalysis-pkdtree-skewed-box'
+K9 = 'K9-automatic-radius-single-site'
 
 _mon = Monitor()
 _seen = {'radius': None, 'auto_radius': None}
@@ -262,9 +263,70 @@ def run_many(unit, rng, ctx):
     ctx.case(signature(sys_.matrix, sys_.site_frac[:50], pos), via > 0, sample={'mode': 'many', 'sites': ns, 'atoms': na, 'inner_fraction': f, 'lattice': sys_.kind})
 
 
+def run_single_site(unit, rng, ctx):
+    """A site set with ONE site per cell (its nearest neighbours are its own periodic images)."""
+    from pymatgen.core import Lattice, Structure
+
+    kind, rot, m = geom.random_lattice(rng, lo=4.0, hi=8.0)
+    inv = np.linalg.inv(m)
+    w = geom.perp_widths(m).min()
+    site = rng.uniform(0, 1, size=(1, 3)) if rng.integers(2) else np.array([[0.0, 0.0, float(rng.choice([0.0, 0.5]))]])
+    R = float(rng.uniform(0.15, 0.4) * w)
+    f = float(rng.choice([1.0, 0.5]))
+    T, nLi = int(rng.integers(8, 40)), int(rng.integers(1, 4))
+    # margin-controlled: inside 0.9 fR / between 1.1 fR and 0.9 R / outside 1.1 R (and below w/2: nearest image unique)
+    zone = rng.integers(3, size=(T, nLi))
+    rad = np.where(zone == 0, rng.uniform(0, 0.9 * f * R, size=(T, nLi)), np.where(zone == 1, rng.uniform(min(1.1 * f, 0.95) * R, 0.95 * R, size=(T, nLi)) if f < 0.85 else rng.uniform(0, 0.9 * R, size=(T, nLi)), rng.uniform(1.1 * R, max(1.1 * R + 1e-3, 0.49 * w), size=(T, nLi))))
+    pos = np.mod(site[None, :, :] + (gen.random_unit_vectors(rng, T * nLi).reshape(T, nLi, 3) * rad[..., None]) @ inv, 1)
+    pos[pos == 1] = 0
+    coords = np.concatenate([pos, np.full((T, 1, 3), 0.37)], axis=1)
+    traj = gen.make_trajectory(m, gen.species_objects(['Li'] * nLi + ['S'], rng=rng), coords)
+    sites = Structure(lattice=Lattice(m), species=['Li'], coords=site, labels=['A'])
+    what = f'{kind}{"/rot" if rot else ""} single site R={R:.3f} f={f}'
+    wit = {'matrix': m, 'site_frac': site, 'site_radius': R, 'inner_fraction': f}
+    arg = {'A': R} if rng.integers(2) else R
+    with warnings.catch_warnings():
+        warnings.simplefilter('ignore')
+        try:
+            tr = traj.transitions_between_sites(sites=sites, floating_specie='Li', site_radius=arg, site_inner_fraction=f)
+        except ValueError as exc:
+            if 'need at least one array' in str(exc):
+                ctx.count('static_history_no_events')
+                tr = None
+            else:
+                raise
+        if tr is not None:
+            check_assignment(ctx, what, m, pos, site, np.array([R]), f, np.asarray(tr.states), np.asarray(tr.inner_states), True, R, wit, None)
+        # automatic radius: the closest neighbours of the site are its own periodic images
+        _seen['auto_radius'] = None
+        try:
+            tr_a = traj.transitions_between_sites(sites=sites, floating_specie='Li')
+        except ValueError as exc:
+            ctx.decided()
+            if 'zero-size array' in str(exc) and 'minimum' in str(exc):
+                ctx.known_finding(K9, f'{what}: automatic site radius for a site set with one site per cell raised ValueError: {exc}')
+            elif 'need at least one array' in str(exc):
+                ctx.count('static_history_no_events')
+            else:
+                ctx.violation(f'{what}: automatic radius with a single site raised ValueError: {exc}', {**wit, 'traceback': traceback.format_exc()[-1200:]})
+        else:
+            r_a = _seen['auto_radius']
+            # the spheres of the site and of its periodic images must not overlap
+            dself = float(np.min([np.linalg.norm(np.array(v) @ m) for v in np.ndindex(3, 3, 3) if v != (1, 1, 1)] or [np.inf]))
+            if r_a is not None:
+                shortest = min(float(np.linalg.norm((np.array(v) - 1) @ m)) for v in np.ndindex(3, 3, 3) if v != (1, 1, 1))
+                ctx.check(2 * r_a < shortest + 1e-9, f'{what}: automatic radius {r_a} makes the sphere of the site overlap with its own periodic image ({shortest} away)', wit)
+                check_assignment(ctx, what + ' [automatic radius]', m, pos, site, np.array([r_a]), 1.0, np.asarray(tr_a.states), np.asarray(tr_a.inner_states), True, r_a, wit, None)
+            del dself
+    ctx.count('single_site_cases')
+    ctx.case(signature(m, site, pos), tr is not None, sample={'lattice': kind, 'single_site': site, 'radius': R, 'inner_fraction': f, 'T': T})
+
+
 def run_unit(unit, rng, ctx):
     if unit['i'] % 60 == 59:
         return run_many(unit, rng, ctx)
+    if unit['i'] % 60 == 29:
+        return run_single_site(unit, rng, ctx)
     mode = str(rng.choice(['float', 'dict', 'auto', 'overlap', 'auto_small'], p=[0.33, 0.33, 0.14, 0.1, 0.1]))
     if mode == 'auto_small':
         return run_auto_small(unit, rng, ctx)
